@@ -61,13 +61,15 @@ const (
 	lfRangeComma    // f:["a,b" TO "c"]  (a string bound containing a comma)
 	lfEqSpecial     // f:"it's, x"  (quote, comma, space in an equality value)
 	lfEmptyQuoted   // f:""
+	lfRangeBig      // f:[9007199254740993 TO *]  (an integer that float64 cannot hold)
+	lfEqBig         // f:9007199254740993
 	lfNonASCII      // f:"é" style two-byte UTF-8 text
 	lfAllCount
 )
 
 var leafNames = []string{"bare", "eq-str", "eq-int", "bare-int", "gt", "ge", "lt", "le", "range-incl", "range-excl", "range-lo", "range-hi",
 	"range-str", "list", "wild", "regexp", "quoted", "float", "bare-wild", "", "range-excl-str", "range-str-lo", "range-str-hi", "range-all",
-	"range-excl-lo", "range-excl-hi", "range-float", "range-float-excl", "list-int", "wild-mid", "regexp-short", "special-float", "range-str-comma", "eq-special", "empty-quoted", "non-ascii"}
+	"range-excl-lo", "range-excl-hi", "range-float", "range-float-excl", "list-int", "wild-mid", "regexp-short", "special-float", "range-str-comma", "eq-special", "empty-quoted", "range-big", "eq-big", "non-ascii"}
 
 // concreteFields makes field names the fixed sequence p, q, r, ... (one per leaf) instead of
 // symbolic bytes; used where rows have to be looked up by name.
@@ -182,6 +184,9 @@ func genLeaf(forms []int) *node {
 		lf.s1 = string([]byte{holeByte("str", strRest), '\'', ',', ' ', holeByte("str", strRest+"';-/")})
 	case lfEmptyQuoted:
 		lf.field = holeField()
+	case lfRangeBig, lfEqBig:
+		lf.field = holeField()
+		lf.d1, lf.i1 = "9007199254740993", 9007199254740993
 	case lfNonASCII:
 		lf.field = holeField()
 		b0 := holeByte("u0", "\xc3\xc4\xd0\xd7")
@@ -333,6 +338,10 @@ func printLeaf(lf *leaf, o *printOpts) string {
 		return lf.field + ":\"" + lf.s1 + "\""
 	case lfEmptyQuoted:
 		return lf.field + ":\"\""
+	case lfRangeBig:
+		return lf.field + ":[" + lf.d1 + sp(o) + kw("TO", o) + sp(o) + "*]"
+	case lfEqBig:
+		return lf.field + ":" + lf.d1
 	}
 	return "?"
 }
@@ -464,7 +473,7 @@ func matchLeaf(e *expr.Expression, lf *leaf, df string) bool {
 		return e.Op == expr.Equals && rtAnd(litColumn(e.Left, lf.field), litString(e.Right, lf.s1))
 	case lfQuoted, lfEqSpecial, lfNonASCII, lfEmptyQuoted:
 		return e.Op == expr.Equals && rtAnd(litColumn(e.Left, lf.field), litString(e.Right, lf.s1))
-	case lfEqInt:
+	case lfEqInt, lfEqBig:
 		return e.Op == expr.Equals && rtAnd(litColumn(e.Left, lf.field), litInt(e.Right, lf.i1))
 	case lfFloat:
 		if e.Op != expr.Equals || !litColumn(e.Left, lf.field) {
@@ -484,7 +493,7 @@ func matchLeaf(e *expr.Expression, lf *leaf, df string) bool {
 		return e.Op == expr.Less && rtAnd(litColumn(e.Left, lf.field), litInt(e.Right, lf.i1))
 	case lfLe:
 		return e.Op == expr.LessEq && rtAnd(litColumn(e.Left, lf.field), litInt(e.Right, lf.i1))
-	case lfRangeIncl, lfRangeExcl, lfRangeLo, lfRangeHi, lfRangeStr:
+	case lfRangeIncl, lfRangeExcl, lfRangeLo, lfRangeHi, lfRangeStr, lfRangeBig:
 		if e.Op != expr.Range {
 			return false
 		}
@@ -500,7 +509,7 @@ func matchLeaf(e *expr.Expression, lf *leaf, df string) bool {
 			return !b.Inclusive && rtAnd(res, rtAnd(litInt(b.Min, lf.i1), litInt(b.Max, lf.i2)))
 		case lfRangeLo:
 			return b.Inclusive && rtAnd(res, rtAnd(litKind(b.Min, expr.Wild, "*"), litInt(b.Max, lf.i1)))
-		case lfRangeHi:
+		case lfRangeHi, lfRangeBig:
 			return b.Inclusive && rtAnd(res, rtAnd(litInt(b.Min, lf.i1), litKind(b.Max, expr.Wild, "*")))
 		default:
 			return b.Inclusive && rtAnd(res, rtAnd(litString(b.Min, lf.s1), litString(b.Max, lf.s2)))
